@@ -2013,7 +2013,9 @@ func decodeRunes(s string, n int) (string, int) {
 // not valid hex.
 func parseRune(hex string) rune {
 
-	n, err := strconv.ParseInt(hex, 16, 32)
+	// ParseUint, unlike ParseInt, does not accept a leading
+	// sign: "\u+041" is not a valid escape sequence.
+	n, err := strconv.ParseUint(hex, 16, 31)
 	if err != nil {
 		return -1
 	}
